@@ -22,6 +22,7 @@ class Folder:
     def __init__(self, idx: Index, max_depth: int = 6):
         self.idx = idx
         self.max_depth = max_depth
+        self.init_env: Dict[str, Dict[str, Any]] = {}  # class qualname -> values of __init__ parameters (symbolic runs)
 
     # ---- public
     def eval(self, modname: str, expr: ast.AST, env: Optional[Dict[str, Any]] = None, cls=None, depth: int = 0) -> Any:
@@ -104,6 +105,15 @@ class Folder:
                     c = self.idx.classes.get(q)
                     if c and e.attr in c.class_attrs:
                         return self._e(c.unit.modname, c.class_attrs[e.attr], {}, c, depth + 1)
+                # instance attribute assigned exactly once in __init__ from a foldable expression
+                init = self.idx.find_method(cls.qualname, "__init__")
+                if init is not None:
+                    vals = [n.value for n in ast.walk(init.node) if isinstance(n, ast.Assign)
+                            and any(isinstance(t, ast.Attribute) and isinstance(t.value, ast.Name) and t.value.id == "self"
+                                    and t.attr == e.attr for t in n.targets)]
+                    if len(vals) == 1:
+                        ienv = dict(self.init_env.get(cls.qualname, {}))
+                        return self._e(init.unit.modname, vals[0], ienv, init.cls, depth + 1)
                 raise Unfoldable(f"self.{e.attr}")
             d = dotted(e)
             if d:
@@ -171,6 +181,8 @@ class Folder:
                 if m:
                     return self._call(m, args, kwargs, depth + 1)
             q = self.idx.resolve(modname, fn)
+            if q in ("re.compile",) and args:
+                return args[0]  # a compiled pattern is represented by its source
             if q in self.idx.functions:
                 return self._call(self.idx.functions[q], args, kwargs, depth + 1)
             raise Unfoldable(f"call {ast.unparse(fn)}")
